@@ -2,8 +2,9 @@
 # Idempotent, offline bootstrap of the overlay venv used by every check:
 #   /verif/.venv = fresh venv of /venv's interpreter + /venv's site-packages (repo deps) + /repo + crosshair-tool (wheelhouse)
 set -e
-V=/verif/.venv
-LOCK=/verif/.env.lock
+ROOT="$(cd "$(dirname "$0")/.." && pwd)"
+V="$ROOT/.venv"
+LOCK="$ROOT/.env.lock"
 exec 9>"$LOCK"
 flock 9
 if [ -x "$V/bin/python" ] && "$V/bin/python" -c "import crosshair, z3, cvc5, jsonschema, inscripta.biocantor" 2>/dev/null; then
